@@ -19,7 +19,7 @@ from __future__ import annotations
 import dataclasses
 import functools
 import math
-from typing import Dict, Iterable, Iterator, Tuple
+from typing import Dict, Iterable, Iterator, List, Tuple
 
 from falcon import errors
 
@@ -223,9 +223,35 @@ _parse_media_type = functools.lru_cache(_MediaType.parse)
 _parse_media_range = functools.lru_cache(_MediaRange.parse)
 
 
+def _split_media_ranges(header: str) -> List[str]:
+    # PERF: Quoted parameter values are rare; split directly when there are none.
+    if '"' not in header:
+        return header.split(',')
+
+    # NOTE: A comma inside a quoted-string does not separate media ranges.
+    media_ranges = []
+    start = 0
+    quoted = False
+    escaped = False
+    for pos, char in enumerate(header):
+        if escaped:
+            escaped = False
+        elif quoted and char == '\\':
+            escaped = True
+        elif char == '"':
+            quoted = not quoted
+        elif char == ',' and not quoted:
+            media_ranges.append(header[start:pos])
+            start = pos + 1
+    media_ranges.append(header[start:])
+    return media_ranges
+
+
 @functools.lru_cache()
 def _parse_media_ranges(header: str) -> Tuple[_MediaRange, ...]:
-    return tuple(_MediaRange.parse(media_range) for media_range in header.split(','))
+    return tuple(
+        _MediaRange.parse(media_range) for media_range in _split_media_ranges(header)
+    )
 
 
 @functools.lru_cache()
